@@ -708,27 +708,59 @@ func c08SubtableLimit(r *run.Run) {
 		}
 		cross[k] = lo
 	}
+	// ... and the smallest entry count that does not round-trip cleanly (refused or corrupt), by bisection:
+	// some internal offset (e.g. that of a trailing coverage table) overflows well before the total size does
+	mkInfo := func(k, n int) (*gtab.Info, gtab.Type) {
+		st, typ, gpos := c08Scaled(k, n)
+		tp := gtab.Type(gtab.TypeGsub)
+		if gpos {
+			tp = gtab.TypeGpos
+		}
+		ll := gtab.LookupList{gen.MakeLookup(typ, gen.Flags[0], []gtab.Subtable{st})}
+		if (typ == 5 || typ == 6) && !gpos {
+			ll = append(ll, gen.MakeLookup(1, gen.Flags[0], gen.GsubSimple[0].Sub()))
+		}
+		return c08Info(tp, ll), tp
+	}
+	clean := func(k, n int) bool {
+		info, tp := mkInfo(k, n)
+		ok := false
+		guard(func() {
+			back, err := gtab.Read(bytes.NewReader(info.Encode()), tp)
+			ok = err == nil && (reflect.DeepEqual(info, back) || cmp.Equal(info, back, c08cmp...))
+		})
+		return ok
+	}
+	firstBad := make([]int, len(c08ScaledKinds))
+	for k := range firstBad {
+		lo, hi := 1, cross[k]+50
+		for lo < hi {
+			mid := (lo + hi) / 2
+			if clean(k, mid) {
+				lo = mid + 1
+			} else {
+				hi = mid
+			}
+		}
+		firstBad[k] = lo
+	}
 	r.Explore(explore.Config{Name: "C08.subtable-limit", Deadline: r.PartDeadline(0.7)},
-		fmt.Sprintf("%d subtable kinds (GSUB 1.2, 2.1, 3.1, 4.1 in two shapes, 8.1, all six context forms, GPOS 1.2, 2.1, 2.2, 3.1, 4.1, 6.1) with every entry count in a window of +-%d around the count at which the encoded subtable crosses 64 KiB (where the 16-bit offsets inside the subtable overflow one after the other): the encoder refuses loudly, or the table comes back intact", len(c08ScaledKinds), window),
+		fmt.Sprintf("%d subtable kinds (GSUB 1.2, 2.1, 3.1, 4.1 in two shapes, 8.1, all six context forms, GPOS 1.2, 2.1, 2.2, 3.1, 4.1, 6.1) with every entry count in a window of +-%d around (a) the count at which the encoded subtable crosses 64 KiB and (b) the smallest count that does not round-trip (found by bisection; an internal 16-bit offset, e.g. that of a trailing coverage table, overflows before the total size does): the encoder refuses loudly, or the table comes back intact", len(c08ScaledKinds), window),
 		func(c *explore.Ctx) {
 			k := c.Choose(len(c08ScaledKinds), "subtable kind")
-			n := cross[k] - window + c.Choose(2*window+1, "entries relative to the crossing")
+			centre := cross[k]
+			if c.Bool("around the first count that does not round-trip") {
+				centre = firstBad[k]
+			}
+			n := centre - window + c.Choose(2*window+1, "entries relative to the centre")
 			if n < 1 {
 				c.Skip("no entries")
 			}
-			st, typ, gpos := c08Scaled(k, n)
-			tp := gtab.Type(gtab.TypeGsub)
-			if gpos {
-				tp = gtab.TypeGpos
-			}
-			desc := fmt.Sprintf("%s with %d entries (the size crosses 0xFFFF at %d entries)", c08ScaledKinds[k], n, cross[k])
+			info, tp := mkInfo(k, n)
+			desc := fmt.Sprintf("%s with %d entries (the size crosses 0xFFFF at %d entries, the first count that does not round-trip is %d)", c08ScaledKinds[k], n, cross[k], firstBad[k])
 			c.Sample(func() any { return desc })
 			c.Nontrivial()
-			ll := gtab.LookupList{gen.MakeLookup(typ, gen.Flags[0], []gtab.Subtable{st})}
-			if (typ == 5 || typ == 6) && !gpos {
-				ll = append(ll, gen.MakeLookup(1, gen.Flags[0], gen.GsubSimple[0].Sub()))
-			}
-			c08RoundTripOnce(c, "subtable limit: "+c08ScaledKinds[k], c08Info(tp, ll), tp, desc)
+			c08RoundTripOnce(c, "subtable limit: "+c08ScaledKinds[k], info, tp, desc)
 		})
 }
 
